@@ -572,6 +572,9 @@ func (e *Env) parseType(s string) types.Type {
 		}
 		return types.NewSlice(el)
 	}
+	if s == "interface{}" || s == "any" {
+		return types.NewInterfaceType(nil, nil)
+	}
 	if strings.HasPrefix(s, "*") {
 		return types.NewPointer(e.parseType(s[1:]))
 	}
@@ -1106,6 +1109,12 @@ func (e *Env) evalCall(n *ECall) SVal {
 		if v.st == nil {
 			v.st = e.old
 		}
+		return v
+	case "now":
+		// now(v): the value v (possibly computed in an old state) as a reference into the current state:
+		// now(old(p)).f reads field f of the object old(p) in the current state
+		v := e.eval(n.Args[0])
+		v.st = nil
 		return v
 	case "arrof":
 		v := e.eval(n.Args[0])
@@ -1766,6 +1775,23 @@ func (e *Env) evalLocs(x Expr) []modLoc {
 	vc := e.vc
 	switch n := x.(type) {
 	case *ESelect:
+		if c, ok := n.X.(*ECall); ok {
+			if id, ok := c.Fun.(*EIdent); ok && id.Name == "all" && len(c.Args) == 1 {
+				// all(T).f : field f of every object of struct type T
+				T := e.parseType(typeArg(c.Args[0]))
+				st, ok := isStruct(T)
+				if !ok {
+					e.fail("modifies: all(%s) is not a struct type", typeArg(c.Args[0]))
+				}
+				for i := 0; i < st.NumFields(); i++ {
+					if st.Field(i).Name() == n.Name {
+						hn, hs := vc.d.fieldHeap(T, i)
+						return []modLoc{{heap: hn, hsort: hs, whole: true}}
+					}
+				}
+				e.fail("modifies: no field %s in %s", n.Name, T)
+			}
+		}
 		base := e.eval(n.X)
 		if base.typ == nil {
 			e.fail("modifies: %s", exprString(x))
